@@ -15,9 +15,9 @@ from vlib.runner import HERE, Outcome, hyp_search
 
 ID = "C12"
 LEVEL = "exploration"
-RULE = ("Each shard fixes a pool of 19 documents (generated ones that deliberately share object numbers, the resource "
+RULE = ("Each shard fixes a pool of 22 documents (generated ones that deliberately share object numbers, the resource "
         "name /F1, BaseFont names, base encodings differing only in /Differences, predefined CMap names with different "
-        "ToUnicode maps, multi-page members, a grid of equidistant labels, two Type0 fonts sharing one descendant, Type1 fonts with different built-in encodings, a /Font dictionary mixing indirect and direct fonts, two documents encrypted through the same crypt filter name with different keys, a document whose xref table carries a wrong offset and marks an object free whose body is still in the file, a document whose pages leave the graphics-state stack unbalanced (unclosed q with a non-default colour space, stray Q on the next page), a document whose pages share one zero-length content stream and paint an empty form twice, a document with a page whose /Resources are empty or missing while its content names what the previous page defines, a document with strings printed over each other (tied lines in one box), a document with a form that paints itself and two forms that paint each other; plus repository samples incl. an AES-encrypted one and CJK ones). "
+        "ToUnicode maps, multi-page members, a grid of equidistant labels, two Type0 fonts sharing one descendant, Type1 fonts with different built-in encodings, a /Font dictionary mixing indirect and direct fonts, two documents encrypted through the same crypt filter name with different keys, a document whose xref table carries a wrong offset and marks an object free whose body is still in the file, a document whose pages leave the graphics-state stack unbalanced (unclosed q with a non-default colour space, stray Q on the next page), a document whose pages share one zero-length content stream and paint an empty form twice, a document with a page whose /Resources are empty or missing while its content names what the previous page defines, a document with strings printed over each other (tied lines in one box), a document with a form that paints itself and two forms that paint each other, two documents of which one defines colour space resource names that the other uses without defining them; plus repository samples incl. an AES-encrypted one and CJK ones). "
         "Hypothesis draws call histories (model-based op lists) run in one long-lived process: extract_text, "
         "extract_pages to completion, open a page iterator, advance any open iterator (interleaving documents), extract "
         "a single page by page_numbers, extract_text_to_fp(xml), rendering through one PDFResourceManager(caching=False) shared by the whole history; each with caching on/off and LAParams default or "
@@ -53,9 +53,16 @@ def gen_doc(kind, variant):
         if base is not None:
             enc[b"BaseEncoding"] = base
         objs[10] = W.D(Type=W.N("Font"), Subtype=W.N("Type1"), BaseFont=W.N("SharedBase"), FirstChar=32, LastChar=126,
-                       Widths=[500 + 10 * variant] * 95, Encoding=enc,
+                       # (some elements are references to an integer object whose number all variants share: what one
+                       # document resolves must not be remembered for the next)
+                       Widths=[500 + 10 * variant] * 33 + [W.R(30)] * 8 + [500 + 10 * variant] * 54, Encoding=enc,
                        FontDescriptor=W.D(Type=W.N("FontDescriptor"), FontName=W.N("SharedBase"), Flags=32,
-                                          FontBBox=[0, 0, 1000, 1000], Ascent=800, Descent=-200))
+                                          FontBBox=W.R(31), Ascent=800, Descent=-200))
+        objs[30] = 400 + 100 * variant
+        # the font box as an indirect array with indirect elements (resolved as a whole by the font constructor)
+        objs[31] = [0, W.R(32), 1000, W.R(33)]
+        objs[32] = -100 * (variant % 3)
+        objs[33] = 800 + 50 * variant
         pages = [b"BT /F1 12 Tf 50 700 Td (ABC abc FGH) Tj 0 -14 Td (DEF %d) Tj ET" % variant,
                  b"BT /F1 10 Tf 50 600 Td (CBA second page) Tj ET"]
     elif kind == "tounicode":
@@ -75,9 +82,10 @@ def gen_doc(kind, variant):
         # Type0 fonts naming the same predefined CMap; ToUnicode differs / absent
         cm = ["90ms-RKSJ-H", "UniJIS-UCS2-H", "90ms-RKSJ-V"][variant % 3]
         ordering = "Japan1"
+        objs[34] = 500 + 37 * variant  # an element of /W under an object number all variants share
         desc = W.D(Type=W.N("Font"), Subtype=W.N("CIDFontType0"), BaseFont=W.N("SharedCID"),
                    CIDSystemInfo=W.D(Registry=b"Adobe", Ordering=ordering.encode(), Supplement=2), DW=1000,
-                   W=[1, [500, 600 + variant]],
+                   W=[1, [W.R(34), 600 + variant]],
                    FontDescriptor=W.D(Type=W.N("FontDescriptor"), FontName=W.N("SharedCID"), Flags=4,
                                       FontBBox=[0, -200, 1000, 900], Ascent=800, Descent=-200))
         objs[12] = desc
@@ -113,7 +121,9 @@ def gen_doc(kind, variant):
 
         tu, _ = F.tounicode_cmap({1: "A", 2: "B", 3: "C"}, codelen=2)
         objs[13] = W.Stream({}, tu)
-        objs[12] = C.descendant("CIDFontType2", "Adobe-Identity", W.R(14), basefont="Shared", DW=1000, W=[1, [500, 600 + variant]])
+        objs[34] = 500 + 37 * variant  # an element of /W under an object number both variants share
+        objs[12] = C.descendant("CIDFontType2", "Adobe-Identity", W.R(14), basefont="Shared", DW=1000,
+                                W=[1, [W.R(34), 600 + variant]])
         objs[14] = C.font_descriptor("Shared")
         objs[10] = C.type0(W.N("Identity-H"), W.R(12), W.R(13), basefont="Shared")
         objs[15] = C.type0(W.N("Identity-H" if variant % 2 == 0 else "Identity-V"), W.R(12), basefont="Shared")
@@ -154,6 +164,18 @@ def gen_doc(kind, variant):
         line = b" ".join(b"BT /F1 10 Tf 50 700 Td (%s) Tj ET" % t for t in strs)
         line2 = b" ".join(b"BT /F1 10 Tf %d 600 Td (%s) Tj ET" % (50 + 3 * i, t) for i, t in enumerate(reversed(strs)))
         pages = [line + b" " + line2, line2]
+    elif kind == "csnames":
+        # variant 0 binds colour space resource names (one of them spelled like a device space) to ICCBased spaces of
+        # four components; variant 1 defines no colour space resources but uses /DeviceRGB and the name /CS0 that only
+        # the other document defines: what one document's resources define is not visible to another document
+        objs[10] = W.simple_font("CsFont")
+        objs[47] = W.Stream(W.D(N=4), b"\x00" * 8)
+        if variant % 2 == 0:
+            pages = [b"/CS0 cs 0.1 0.2 0.3 0.4 sc BT /F1 12 Tf 50 700 Td (four) Tj ET "
+                     b"/DeviceRGB cs 0.4 0.3 0.2 0.1 sc BT /F1 12 Tf 50 650 Td (odd name) Tj ET"]
+        else:
+            pages = [b"/DeviceRGB cs 1 0 0 sc BT /F1 12 Tf 50 700 Td (red) Tj ET "
+                     b"0.5 g /CS0 cs 0.25 sc BT /F1 12 Tf 50 650 Td (undefined space) Tj ET"]
     elif kind == "recursiveform":
         # a form that paints itself, and two forms that paint each other: the invocation that would recurse is skipped,
         # with object caching on and off alike
@@ -201,6 +223,9 @@ def gen_doc(kind, variant):
         kids.append(W.R(21 + 2 * i))
     objs[1] = W.D(Type=W.N("Catalog"), Pages=W.R(2))
     objs[2] = W.D(Type=W.N("Pages"), Kids=kids, Count=len(kids))
+    if kind == "csnames" and variant % 2 == 0:
+        objs[21][b"Resources"] = {b"Font": {b"F1": W.R(10)},
+                                  b"ColorSpace": {b"CS0": [W.N("ICCBased"), W.R(47)], b"DeviceRGB": [W.N("ICCBased"), W.R(47)]}}
     if kind == "recursiveform":
         for i in range(len(pages)):
             objs[21 + 2 * i][b"Resources"] = res
@@ -266,7 +291,8 @@ def make_pool(rnd):
     pool.append(["gen", k, v[0]])
     pool.append(["gen", k, v[1]])
     pool.append(["gen", "grid", rnd.randrange(2)])
-    pool.append(["gen", "shared", rnd.randrange(2)])
+    pool.append(["gen", "shared", 0])
+    pool.append(["gen", "shared", 1])
     fv = rnd.sample(range(3), 2)
     pool.append(["gen", "fontfile", fv[0]])
     pool.append(["gen", "fontfile", fv[1]])
@@ -277,6 +303,8 @@ def make_pool(rnd):
     pool.append(["gen", "noresources", rnd.randrange(2)])
     pool.append(["gen", "overprint", rnd.randrange(3)])
     pool.append(["gen", "recursiveform", rnd.randrange(2)])
+    pool.append(["gen", "csnames", 0])
+    pool.append(["gen", "csnames", 1])
     cv = rnd.sample(range(4), 2)
     pool.append(["gen", "crypt", cv[0]])
     pool.append(["gen", "crypt", cv[1]])
